@@ -494,7 +494,7 @@ package commands
 //@ func (*uploadContext).ensureFile
 //@   props C03
 //@   requires @inv c != nil && c.gitfilter != nil && c.gitfilter.cfg != nil
-//@   modifies all
+//@   modifies all, ghost lastdecodeerr
 //@   ensures result0 ==> !old(c.allowMissing)
 //@ func (*uploadContext).CollectErrors
 //@   props C03
